@@ -59,6 +59,11 @@ def _worker(args):
                 variants.append(("respelled", gram.spell(toks, rng, trivia=True, case=True)))
             if any(t[1] == "END_IF" for t in toks):
                 variants.append(("endif-nosemi", gram.spell(toks, rng, drop_endif_semi=True)))
+        if mode == "c10":
+            # the renderer's own layout ('a [ 1 ]') differs from how people write ('a[1]'): both spellings must round-trip
+            cs = gram.spell(toks, compact=True)
+            if cs[0] != variants[0][1][0]:
+                variants.append(("compact", cs))
         for vn, (text, spans) in variants:
             cases.append({"id": len(cases), "text": text, "render": mode == "c10", "analyze": mode in ("c08",), "tree": True})
             meta.append((di, vn, spans))
